@@ -37,7 +37,7 @@ func setFsizeFatal(n uint64) {
 // chosen by the value table. Returns whether it died.
 func (c *Ctx) CrashWindow(maxSteps int, f func()) bool {
 	c.Int("crash-step", 0, maxSteps)
-	c.Int("crash-partial", 0, 8)
+	c.Int("crash-partial", 0, 1<<16)
 	kind := c.next("crash-kind", "meta", 64)
 	arg := c.next("crash-arg", "meta", 64)
 	if childMode() {
